@@ -300,8 +300,8 @@ class SgzConverter(SgzReader):
 
         # seimcic-zfp stores the binary header from the source SEG-Y file.
         # In case someone forgot to do this, give them IBM float
-        data_sample_format_code = bytes_to_int(
-            self.headerbytes[DISK_BLOCK_BYTES+3225: DISK_BLOCK_BYTES+3227])
+        data_sample_format_code = int.from_bytes(
+            self.headerbytes[DISK_BLOCK_BYTES+3224: DISK_BLOCK_BYTES+3226], byteorder='big')
         if data_sample_format_code in [1, 5]:
             spec.format = data_sample_format_code
         else:
